@@ -598,6 +598,7 @@ fn run(opts: Opts) -> i32 {
     ev.set("target_functions", json!(targets.len()));
     {
         let g = GEN_STATS.lock().unwrap();
+        ev.set("lie_constructions_that_panicked_and_were_not_injected", json!(prover::STRATEGY_PANICS.load(std::sync::atomic::Ordering::Relaxed)));
         ev.set("generated_instantiations", json!({"accepted_by_compiler": g.0, "rejected_by_compiler": g.1, "refused_or_crashed_after_sierra_generation": GEN_FAILED_LATE.lock().unwrap().clone(), "kinds": ["bounded_int_div_rem ranges", "downcast ranges", "bounded_int_constrain ranges", "composed functions (2-6 hinted operations with a branch, a loop and locals)", "array get / slice / multi-pop over element types of 1-17 cells and popped sizes up to ~40 cells"]}));
     }
     let _ = std::fs::remove_dir_all(gen_dir());
